@@ -250,7 +250,7 @@ impl Ctx {
             .to_string();
         if loc.contains("/repo/src/") {
             let short = loc.rsplit("/repo/").next().unwrap_or(&loc).to_string();
-            let props: Vec<&'static str> = if self.panic_props.is_empty() { vec!["C11", "C07", "C01"] } else { self.panic_props.clone() };
+            let props: Vec<&'static str> = if self.panic_props.is_empty() { vec!["C11", "C07"] } else { self.panic_props.clone() };
             for p in props {
                 self.violation(
                     p,
